@@ -6,6 +6,7 @@ From Coba Require C20.Run.
 From Coba Require C17.Run.
 From Coba Require C09.Run.
 From Coba Require C11.Run.
+From Coba Require C18.Run.
 Open Scope Z_scope.
 
 Definition dispatch (op : Z) (x : sx) : sx :=
@@ -15,5 +16,6 @@ Definition dispatch (op : Z) (x : sx) : sx :=
   | 17 => C17.Run.run x
   | 9 => C09.Run.run x
   | 11 => C11.Run.run x
+  | 18 => C18.Run.run x
   | _ => err 98
   end.
